@@ -124,6 +124,8 @@ def run_shard(shard):
     tier_quick = len(shard) > 4 and shard[4] == "quick"
     if n_nb == 1:
         menus = [W.HIT_MENU_FULL, W.HIT_MENU_SMALL if tier_quick else W.HIT_MENU_FULL]
+        if mode == "apply" and tier_quick:
+            menus = [W.HIT_MENU_SMALL, W.HIT_MENU_SMALL]
     else:
         menus = [W.HIT_MENU_SMALL] * (n_nb + 1)
     rules = [DetectionRule("r", "cat", C1, 0, U.top(t)) for t in trees] if mode == "detect" else None
